@@ -62,6 +62,15 @@ func runC08(cfg *Config) *Report {
 		s := genSubst(r, nv)
 		q := uint64(r.Intn(nv))
 		v := genTerm(r, 1+r.Intn(4), nv)
+		// variable indices are arbitrary 64-bit numbers: small, beyond a machine word's bit count, huge
+		off := pick(r, []uint64{0, 0, 60, 200, 1 << 40})
+		if off > 0 {
+			shift := func(i uint64) uint64 { return i + off }
+			for k := range s {
+				s[k] = micro.SubPair{Key: s[k].Key + off, Value: mapVars(s[k].Value, shift)}
+			}
+			v = mapVars(v, shift)
+		}
 		prog := pg.goal(2+r.Intn(7), 1)
 		n := r.Intn(5) - 1
 		gcase := genGRun(r)
@@ -77,12 +86,13 @@ func runC08(cfg *Config) *Report {
 		gcoq := ""
 		switch {
 		case kind < 5:
-			st := &micro.State{Substitutions: s, Counter: uint64(nv)}
+			q += off
+			st := &micro.State{Substitutions: s, Counter: uint64(nv) + off}
 			before := showSubst(s)
 			out := micro.ReifyIntVarFromState(q)(st)
 			desc = fmt.Sprintf("reify ?%d in state %s", q, before)
 			obs = out.String()
-			cf.add(fmt.Sprintf("CReify %s %s %s %s", coqN(q), encSubst(s), coqN(uint64(nv)), encTerm(out)))
+			cf.add(fmt.Sprintf("CReify %s %s %s %s", coqN(q), encSubst(s), coqN(uint64(nv)+off), encTerm(out)))
 			rep.hist("reify")
 			resolved := micro.VerifWalkStar(micro.Var(q), s)
 			if hasVar(out) {
